@@ -51,7 +51,7 @@ def riscv_parse(l, labels):
     if l.startswith('.') and not l.endswith(':'): return None
     m = re.match(r'^([.\w$]+):$', l)
     if m:
-        n = labels.setdefault(m.group(1), len(labels)); return ('.label %d' % n, ('label', n))
+        n = labels.setdefault(m.group(1), len(labels)); return ('.label %d' % n, [('label', n)])
     parts = l.split(None, 1)
     mn = parts[0]; ops = [o.strip() for o in parts[1].split(',')] if len(parts) > 1 else []
     def R(x):
@@ -64,26 +64,101 @@ def riscv_parse(l, labels):
     def lab(x): return labels.setdefault(x, len(labels))
     if mn == 'lw':
         off, b = memop(ops[1]); rd = R(ops[0])
-        return ('.lw %s (%s) %s' % (reg(rd), lit32(off), reg(b)), ('ldr', rd, b, off, 'stk' if b == 2 else 'mem'))
+        return ('.lw %s (%s) %s' % (reg(rd), lit32(off), reg(b)), [('ldr', rd, b, off, 'stk' if b == 2 else 'mem')])
     if mn == 'sw':
         off, b = memop(ops[1]); rs = R(ops[0])
-        return ('.sw %s (%s) %s' % (reg(rs), lit32(off), reg(b)), ('str', rs, b, off, 'stk' if b == 2 else 'mem'))
+        return ('.sw %s (%s) %s' % (reg(rs), lit32(off), reg(b)), [('str', rs, b, off, 'stk' if b == 2 else 'mem')])
     if mn in ('srli', 'slli'):
         rd, rs, k = R(ops[0]), R(ops[1]), parse_int(ops[2])
         if not 0 <= k < 32: raise TranslateError('shift amount out of range in %r' % l)
-        return ('.%s %s %s %d' % (mn, reg(rd), reg(rs), k), ('alu', 'mov', False, rd, rd, ('lsr' if mn == 'srli' else 'lsl', rs, k)))
+        return ('.%s %s %s %d' % (mn, reg(rd), reg(rs), k), [('alu', 'mov', False, rd, rd, ('lsr' if mn == 'srli' else 'lsl', rs, k))])
     if mn in ('xor', 'and'):
         rd, rs, rt = R(ops[0]), R(ops[1]), R(ops[2])
-        return ('.%s %s %s %s' % (mn, reg(rd), reg(rs), reg(rt)), ('alu', mn, False, rd, rs, ('reg', rt)))
+        return ('.%s %s %s %s' % (mn, reg(rd), reg(rs), reg(rt)), [('alu', mn, False, rd, rs, ('reg', rt))])
     if mn == 'addi':
         rd, rs, imm = R(ops[0]), R(ops[1]), parse_int(ops[2])
         if not -2048 <= imm < 2048: raise TranslateError('immediate out of range in %r' % l)
-        return ('.addi %s %s (%d)' % (reg(rd), reg(rs), imm), ('alu', 'sub', False, rd, rs, ('imm', -imm)) if imm < 0 else ('alu', 'add', False, rd, rs, ('imm', imm)))
+        return ('.addi %s %s (%d)' % (reg(rd), reg(rs), imm), [('alu', 'sub', False, rd, rs, ('imm', -imm)) if imm < 0 else ('alu', 'add', False, rd, rs, ('imm', imm))])
     if mn in ('bne', 'beq'):
         rs, rt, lb = R(ops[0]), R(ops[1]), lab(ops[2])
         if rt != 0: raise TranslateError('branch against a non-zero register not covered: %r' % l)
-        return ('.%s %s %s %d' % (mn, reg(rs), reg(rt), lb), ('bnz' if mn == 'bne' else 'bz', rs, lb))
-    if mn == 'ret' and not ops: return ('.ret', ('ret',))
+        return ('.%s %s %s %d' % (mn, reg(rs), reg(rt), lb), [('bnz' if mn == 'bne' else 'bz', rs, lb)])
+    if mn == 'ret' and not ops: return ('.ret', [('ret',)])
+    raise TranslateError('unknown instruction %r' % l)
+
+
+# ----------------------------------------------------------------------------------------- ARM / Thumb
+ARM_REGS = {'r%d' % i: i for i in range(16)}
+ARM_REGS.update({'sb': 9, 'sl': 10, 'fp': 11, 'ip': 12, 'sp': 13, 'lr': 14, 'pc': 15})
+
+def arm_parse(l, labels):
+    if l.startswith('.') and not l.endswith(':'): return None
+    m = re.match(r'^([.\w$]+):$', l)
+    if m:
+        n = labels.setdefault(m.group(1), len(labels)); return ('.label %d' % n, [('label', n)])
+    parts = l.split(None, 1)
+    mn = parts[0]; rest = parts[1].strip() if len(parts) > 1 else ''
+    def R(x):
+        x = x.strip()
+        if x not in ARM_REGS: raise TranslateError('unknown register %r in %r' % (x, l))
+        return ARM_REGS[x]
+    def lab(x): return labels.setdefault(x.strip(), len(labels))
+    def sp_space(b): return 'stk' if b == 13 else 'mem'
+    if mn in ('push', 'pop'):
+        m = re.match(r'^\{(.*)\}$', rest)
+        if not m: raise TranslateError('bad register list in %r' % l)
+        regs = [R(x) for x in m.group(1).split(',')]
+        if regs != sorted(regs): raise TranslateError('register list not ascending in %r' % l)
+        n = len(regs)
+        term = '.%s [%s]' % (mn, ', '.join(reg(r) for r in regs))
+        if mn == 'push':
+            mic = [('alu', 'sub', False, 13, 13, ('imm', 4 * n))] + [('str', r, 13, 4 * i, 'stk') for i, r in enumerate(regs)]
+        else:
+            mic = [('ldr', r, 13, 4 * i, 'stk') for i, r in enumerate(regs)] + [('alu', 'add', False, 13, 13, ('imm', 4 * n))] + ([('ret',)] if 15 in regs else [])
+        return (term, mic)
+    if mn in ('ldr', 'str'):
+        m = re.match(r'^(\w+)\s*,\s*\[(\w+)(?:\s*,\s*#(-?\w+))?\]$', rest)
+        if not m: raise TranslateError('bad memory operand in %r' % l)
+        rt, rn = R(m.group(1)), R(m.group(2)); off = parse_int(m.group(3)) if m.group(3) else 0
+        if off < 0: raise TranslateError('negative offset in %r' % l)
+        return ('.%s %s %s %d' % (mn, reg(rt), reg(rn), off), [(mn, rt, rn, off, sp_space(rn))])
+    ops = [o.strip() for o in rest.split(',')] if rest else []
+    sflag = mn.endswith('s') and mn not in ('subs',) and mn[:-1] in ('eor', 'and', 'lsr', 'lsl')
+    base = mn[:-1] if sflag else mn
+    S = 'true' if sflag else 'false'
+    if base == 'eor':
+        if len(ops) == 2: rd, rn, rm, sh = R(ops[0]), R(ops[0]), R(ops[1]), None
+        elif len(ops) == 3: rd, rn, rm, sh = R(ops[0]), R(ops[1]), R(ops[2]), None
+        elif len(ops) == 4:
+            rd, rn, rm = R(ops[0]), R(ops[1]), R(ops[2])
+            m = re.match(r'^(lsl|lsr)\s+#(\d+)$', ops[3])
+            if not m: raise TranslateError('bad shift in %r' % l)
+            sh = (m.group(1), int(m.group(2)))
+        else: raise TranslateError('bad operands in %r' % l)
+        if sh and not 0 < sh[1] < 32: raise TranslateError('shift amount out of range in %r' % l)
+        sht = '.none' if sh is None else '(.%s %d)' % sh
+        o2 = ('reg', rm) if sh is None else (sh[0], rm, sh[1])
+        return ('.eor %s %s %s %s %s' % (S, reg(rd), reg(rn), reg(rm), sht), [('alu', 'xor', sflag, rd, rn, o2)])
+    if base == 'and':
+        if len(ops) == 2: rd, rn, rm = R(ops[0]), R(ops[0]), R(ops[1])
+        elif len(ops) == 3: rd, rn, rm = R(ops[0]), R(ops[1]), R(ops[2])
+        else: raise TranslateError('bad operands in %r' % l)
+        return ('.and %s %s %s %s' % (S, reg(rd), reg(rn), reg(rm)), [('alu', 'and', sflag, rd, rn, ('reg', rm))])
+    if base in ('lsr', 'lsl'):
+        if len(ops) != 3: raise TranslateError('bad operands in %r' % l)
+        rd, rm, k = R(ops[0]), R(ops[1]), parse_int(ops[2])
+        if not 0 < k < 32: raise TranslateError('shift amount out of range in %r' % l)
+        return ('.%s %s %s %s %d' % (base, S, reg(rd), reg(rm), k), [('alu', 'mov', sflag, rd, rd, (base, rm, k))])
+    if mn == 'mov' and len(ops) == 2:
+        rd, rm = R(ops[0]), R(ops[1])
+        return ('.mov %s %s' % (reg(rd), reg(rm)), [('alu', 'mov', False, rd, rd, ('reg', rm))])
+    if mn == 'subs' and len(ops) == 3:
+        rd, rn, imm = R(ops[0]), R(ops[1]), parse_int(ops[2])
+        if not 0 <= imm < 256: raise TranslateError('immediate out of range in %r' % l)
+        return ('.subs %s %s %d' % (reg(rd), reg(rn), imm), [('alu', 'sub', True, rd, rn, ('imm', imm))])
+    if mn in ('bne', 'beq', 'b') and len(ops) == 1:
+        lb = lab(ops[0]); return ('.%s %d' % (mn, lb), [(mn, lb)])
+    if mn == 'bx' and ops == ['lr']: return ('.bxlr', [('ret',)])
     raise TranslateError('unknown instruction %r' % l)
 
 # ----------------------------------------------------------------------------------------- micro -> Lean
@@ -116,6 +191,10 @@ CONFIGS = {
     # name: (file tag, cpp defines, parser, Lean ISA namespace, arg0 reg, arg1 reg, sp reg, callee-saved regs)
     'rv32i': ('riscv32i', ['__riscv', '__riscv_xlen=32'], riscv_parse, 'RiscV', 10, 11, 2, [1, 2, 8, 9] + list(range(18, 28))),
     'rv32e': ('riscv32e', ['__riscv', '__riscv_xlen=32', '__riscv_32e'], riscv_parse, 'RiscV', 10, 11, 2, [1, 2, 8, 9]),
+    # ARM: r4-r11 and sp are callee-saved; the return goes to the caller's lr (checked separately)
+    'armv6': ('armv6', ['__ARM_ARCH=6', '__arm__'], arm_parse, 'Arm', 0, 1, 13, [4, 5, 6, 7, 8, 9, 10, 11, 13]),
+    'armv6m': ('armv6m', ['__ARM_ARCH=6', '__ARM_ARCH_6M__', '__ARM_ARCH_ISA_THUMB=1', '__arm__', '__thumb__'], arm_parse, 'Arm', 0, 1, 13, [4, 5, 6, 7, 8, 9, 10, 11, 13]),
+    'armv7m': ('armv7m', ['__ARM_ARCH=7', '__ARM_ARCH_7M__', '__ARM_ARCH_ISA_THUMB=2', '__arm__', '__thumb__'], arm_parse, 'Arm', 0, 1, 13, [4, 5, 6, 7, 8, 9, 10, 11, 13]),
 }
 NK = {128: 4, 192: 6, 256: 8}
 
@@ -126,7 +205,7 @@ def translate(config, bits):
     for l in clean_lines(cpp(path, defines)):
         t = parser(l, labels)
         if t is None: continue
-        isa.append(t[0]); micro.append(t[1]); src.append(l)
+        isa.append(t[0]); micro.extend(t[1]); src.append(l)
     if not micro: raise TranslateError('%s: nothing selected under %s' % (path, defines))
     return {'config': config, 'bits': bits, 'path': path, 'isa': isa, 'micro': micro, 'src': src, 'ns': ns,
             'a0': a0, 'a1': a1, 'sp': sp, 'cs': cs}
@@ -135,42 +214,61 @@ def analyse(t):
     """read the loop structure off the lowered program"""
     mi = t['micro']; nk = NK[t['bits']]
     lab_idx = {m[1]: i for i, m in enumerate(mi) if m[0] == 'label'}
-    branches = [i for i, m in enumerate(mi) if m[0] in ('bnz', 'bz', 'bne', 'beq')]
-    if not branches: raise TranslateError('no loop found')
-    back = [i for i in branches if lab_idx[mi[i][-1]] < i]
-    if len(back) != 1: raise TranslateError('expected exactly one backward branch, found %d' % len(back))
-    last = back[0]; head = lab_idx[mi[last][-1]]
-    inner = [i for i in branches if head < i < last]
-    exit_pc = last + 1
-    if mi[exit_pc][0] != 'label': raise TranslateError('the loop is not followed by its exit label')
-    for i in inner:
-        if lab_idx[mi[i][-1]] != exit_pc: raise TranslateError('inner branch does not target the exit label')
-    ends = inner + [last]
-    segs = []; start = head
-    for e in ends:
-        segs.append((start, e)); start = e + 1     # segment [start, e), branch at e
+    conds = [i for i, m in enumerate(mi) if m[0] in ('bnz', 'bz', 'bne', 'beq')]
+    if not conds: raise TranslateError('no loop found')
+    def target(i): return lab_idx[mi[i][-1]]
+    # the loop head: the only label that is the target of a backward jump
+    backs = sorted(set(target(i) for i, m in enumerate(mi) if m[0] in ('bnz', 'bz', 'bne', 'beq', 'b') and target(i) < i))
+    if len(backs) != 1: raise TranslateError('expected exactly one loop head, found %d' % len(backs))
+    head = backs[0]
     ret = len(mi) - 1
     if mi[ret][0] != 'ret': raise TranslateError('program does not end in a return')
-    pre = (0, head); post = (exit_pc, ret)
+    def follow(pc, zero):
+        """execute control instructions from pc with the counter test outcome `zero`; returns (landing pc, list of (pc, instr, taken))"""
+        path = []
+        while is_ctl(mi[pc]) and mi[pc][0] != 'ret':
+            m = mi[pc]
+            if m[0] in ('bnz', 'bne'): taken = not zero
+            elif m[0] in ('bz', 'beq'): taken = zero
+            else: taken = True
+            path.append((pc, m, taken))
+            pc = target(pc) if taken else pc + 1
+            if len(path) > 3: raise TranslateError('branch group too long')
+        return pc, path
+    segs = []; groups = []; start = head; exit_pc = None
+    guard = 0
+    while True:
+        guard += 1
+        if guard > 8: raise TranslateError('loop structure not recognised')
+        e = start
+        while not is_ctl(mi[e]): e += 1
+        if mi[e][0] not in ('bnz', 'bz', 'bne', 'beq'): raise TranslateError('segment does not end in a conditional branch')
+        zpc, zpath = follow(e, True); npc, npath = follow(e, False)
+        if exit_pc is None: exit_pc = zpc
+        if zpc != exit_pc: raise TranslateError('loop exits differ')
+        segs.append((start, e)); groups.append({'zero': zpath, 'nonzero': npath, 'next': npc})
+        if npc == head: break
+        if npc <= e: raise TranslateError('unexpected backward continuation')
+        start = npc
     for i in range(0, head):
         if is_ctl(mi[i]): raise TranslateError('control instruction in the prologue')
     for i in range(exit_pc, ret):
         if is_ctl(mi[i]): raise TranslateError('control instruction in the epilogue')
+    pre = (0, head); post = (exit_pc, ret)
     a0 = t['a0']
     st = {}
     for i in range(0, head):
         m = mi[i]
         if m[0] == 'ldr' and m[2] == a0 and m[4] == 'mem' and m[3] in (0, 4, 8, 12): st[m[3] // 4] = m[1]
     if sorted(st) != [0, 1, 2, 3]: raise TranslateError('state words are not loaded into registers in the prologue')
-    loopw = set(w for i in range(head, last + 1) for w in [writes(mi[i])] if w is not None)
+    last = segs[-1][1]
+    loopw = set(w for (lo, hi) in segs for i in range(lo, hi) for w in [writes(mi[i])] if w is not None)
     keysrc = {}
     for i in range(0, head):
         m = mi[i]
         if m[0] == 'ldr' and m[2] == a0 and m[4] == 'mem' and m[3] >= 16 and (m[3] - 16) // 4 < nk and m[1] not in loopw:
             keysrc[(m[3] - 16) // 4] = ('reg', m[1])
-    for k in range(nk):
-        keysrc.setdefault(k, ('mem', 16 + 4 * k))
-    # counter register
+    for k in range(nk): keysrc.setdefault(k, ('mem', 16 + 4 * k))
     bm = mi[last]
     if bm[0] in ('bnz', 'bz'): cnt = bm[1]; flags = False
     else:
@@ -178,7 +276,7 @@ def analyse(t):
         for i in range(last - 1, head, -1):
             if mi[i][0] == 'alu' and mi[i][2]: cnt = mi[i][3]; break
         if cnt is None: raise TranslateError('no flag-setting instruction before the loop branch')
-    return {'head': head, 'exit': exit_pc, 'segs': segs, 'pre': pre, 'post': post, 'ret': ret, 'state': [st[i] for i in range(4)],
+    return {'head': head, 'exit': exit_pc, 'segs': segs, 'groups': groups, 'pre': pre, 'post': post, 'ret': ret, 'state': [st[i] for i in range(4)],
             'keysrc': keysrc, 'cnt': cnt, 'flags': flags, 'loopw': loopw, 'nk': nk, 'n': len(segs), 'lab_idx': lab_idx}
 
 def key_expr(a, t, k, d):
@@ -240,42 +338,70 @@ def emit(t):
     pcs = [lo for lo, hi in a['segs']]
     o.append('def pcs : Nat → Nat\n' + '\n'.join('  | %d => %d' % (j, pc) for j, pc in enumerate(pcs)) + '\n  | _ => %d\n' % pcs[0])
     keyregs = sorted(set(a['keysrc'][k][1] for k in range(nk) if a['keysrc'][k][0] == 'reg'))
+    STEP = {'bnz': 'step_bnz', 'bz': 'step_bz', 'bne': 'step_bne', 'beq': 'step_beq', 'b': 'step_b'}
+    fetched = set()
     for j, (lo, hi) in enumerate(a['segs']):
-        br = mi[hi]; nxt = (j + 1) % n
+        grp = a['groups'][j]; nxt = (j + 1) % n
         ks = [key_expr(a, t, (4 * j + q) % nk, 'd') for q in range(4)]
-        o.append('theorem br%d_fetch : prog[%d + seg%d.length]? = some (%s) := by decide +kernel' % (j, lo, j, micro_lean(br)))
+        for (pc, m, taken) in grp['zero'] + grp['nonzero']:
+            if pc not in fetched:
+                fetched.add(pc)
+                o.append('theorem fetch_%d : prog[%d]? = some (%s) := by decide +kernel' % (pc, pc, micro_lean(m)))
+        o.append('theorem seg%d_end : %d + seg%d.length = %d := by decide' % (j, lo, j, hi))
+        if a['flags']:
+            o.append('theorem seg%d_z (d : D) : (seg%d.foldl execD d).z = decide ((seg%d.foldl execD d).r.x%d = 0) := by' % (j, j, j, cnt))
+            lastm = mi[hi - 1]
+            if not (lastm[0] == 'alu' and lastm[2] and lastm[3] == cnt): raise TranslateError('segment does not end with the flag-setting decrement')
+            o.append('  have h : seg%d = seg%d.dropLast ++ [%s] := by decide +kernel' % (j, j, micro_lean(lastm)))
+            o.append('  rw [h, List.foldl_append]')
+            o.append('  generalize (seg%d.dropLast).foldl execD d = d2' % j)
+            o.append('  simp only [%s, ↓reduceIte]' % UNFOLD)
+            o.append('  all_goals (first | rfl | (congr 1))')
         o.append('theorem H%d (d1 : D) (d : D) (s : S4) (m : Nat) (hi : Inv d1 d s m) (hm : 1 ≤ m) :' % j)
         o.append('    ∃ k d\', run prog k ⟨d, pcs %d, false⟩ = ⟨d\', if m = 1 then %d else pcs ((%d + 1) %% %d), false⟩ ∧' % (j, a['exit'], j, n))
         o.append('      Inv d1 d\' (roundAtBV %d (key d1) %d s) (m - 1) := by' % (nk, j))
         o.append('  show ∃ k d\', run prog k ⟨d, %d, false⟩ = ⟨d\', if m = 1 then %d else %d, false⟩ ∧ _' % (lo, a['exit'], pcs[nxt]))
         o.append('  have ea := seg%d_a d; have eb := seg%d_b d; have ec := seg%d_c d; have ed := seg%d_d d' % (j, j, j, j))
         o.append('  have ecnt := seg%d_cnt d; have emem := seg%d_mem d; have estk := seg%d_stk d' % (j, j, j))
+        if a['flags']: o.append('  have ez := seg%d_z d' % j)
         for r in frame:
             o.append('  have ef%d : (seg%d.foldl execD d).r.x%d = d.r.x%d := fold_get_unwritten seg%d d .x%d (by decide +kernel)' % (r, j, r, r, j, r))
         o.append('  have hk : roundAtBV %d (key d1) %d s = roundBV ⟨d.r.x%d, d.r.x%d, d.r.x%d, d.r.x%d⟩ %s %s %s %s := by' % (nk, j, S[0], S[1], S[2], S[3], ks[0], ks[1], ks[2], ks[3]))
         rew = ['hi.sa', 'hi.sb', 'hi.sc', 'hi.sd', 'hi.mem', 'hi.f%d' % a0] + ['hi.f%d' % r for r in keyregs]
         o.append('    simp only [%s]; rfl' % ', '.join(dict.fromkeys(rew)))
-        o.append('  refine ⟨seg%d.length + 1, seg%d.foldl execD d, ?_, ?_⟩' % (j, j))
-        o.append('  · rw [run_slice_then prog seg%d d %d seg%d_slice seg%d_noctl, %s _ _ _ _ _ br%d_fetch]' % (j, lo, j, j, 'step_bz' if br[0] == 'bz' else 'step_bnz', j))
-        o.append('    generalize seg%d.foldl execD d = d\' at *' % j)
-        o.append('    have hc : d\'.r.get .x%d = BitVec.ofNat 32 (m - 1) := by' % cnt)
-        o.append('      show d\'.r.x%d = _; rw [ecnt, hi.cnt, ofNat_pred1 m hm]' % cnt)
-        o.append('    rw [hc]')
-        o.append('    have hz := ofNat_pred_eq_zero m hm hi.lt')
-        o.append('    by_cases h1 : m = 1')
-        o.append('    · have : BitVec.ofNat 32 (m - 1) = 0 := hz.2 h1')
-        o.append('      rw [if_pos this, if_pos h1]; first | done | rfl | (rw [lab_%d]; done) | (rw [lab_%d]; rfl)' % (br[-1], br[-1]))
-        o.append('    · have : ¬ BitVec.ofNat 32 (m - 1) = 0 := fun e => h1 (hz.1 e)')
-        o.append('      rw [if_neg this, if_neg h1]; first | done | rfl | (rw [lab_%d]; done) | (rw [lab_%d]; rfl)' % (br[-1], br[-1]))
-        o.append('  · generalize seg%d.foldl execD d = d\' at *' % j)
-        o.append('    exact {')
+        o.append('  have hrunseg : run prog seg%d.length ⟨d, %d, false⟩ = ⟨seg%d.foldl execD d, %d, false⟩ := by' % (j, lo, j, hi))
+        o.append('    rw [run_slice prog seg%d d %d seg%d_slice seg%d_noctl, seg%d_end]' % (j, lo, j, j, j))
+        o.append('  generalize seg%d.foldl execD d = d\' at *' % j)
+        o.append('  have hcv : d\'.r.x%d = BitVec.ofNat 32 (m - 1) := by rw [ecnt, hi.cnt, ofNat_pred1 m hm]' % cnt)
+        o.append('  have hz0 := ofNat_pred_eq_zero m hm hi.lt')
+        o.append('  have hinv\' : Inv d1 d\' (roundAtBV %d (key d1) %d s) (m - 1) := {' % (nk, j))
         for f, e in zip('abcd', ['ea', 'eb', 'ec', 'ed']): o.append('      s%s := by rw [hk, %s]' % (f, e))
-        o.append('      cnt := by rw [ecnt, hi.cnt, ofNat_pred1 m hm]')
+        o.append('      cnt := hcv')
         o.append('      lt := by have := hi.lt; omega')
         o.append('      mem := by rw [emem, hi.mem]')
         o.append('      stk := by rw [estk, hi.stk]')
         for r in frame: o.append('      f%d := by rw [ef%d, hi.f%d]' % (r, r, r))
-        o.append('    }\n')
+        o.append('    }')
+        o.append('  by_cases h1 : m = 1')
+        for case, path, land in (('zero', grp['zero'], a['exit']), ('nonzero', grp['nonzero'], pcs[nxt])):
+            zero = case == 'zero'
+            o.append('  · refine ⟨seg%d.length + %d, d\', ?_, hinv\'⟩' % (j, len(path)))
+            o.append('    rw [%s h1, run_add, hrunseg]' % ('if_pos' if zero else 'if_neg'))
+            if a['flags']:
+                if zero: o.append('    have hzf : d\'.z = true := by rw [ez, hcv]; exact decide_eq_true (hz0.2 h1)')
+                else: o.append('    have hzf : d\'.z = false := by rw [ez, hcv]; exact decide_eq_false (fun e => h1 (hz0.1 e))')
+            else:
+                if zero: o.append('    have hzr : d\'.r.get .x%d = 0 := by show d\'.r.x%d = 0; rw [hcv]; exact hz0.2 h1' % (cnt, cnt))
+                else: o.append('    have hzr : ¬ d\'.r.get .x%d = 0 := by show ¬ d\'.r.x%d = 0; rw [hcv]; exact fun e => h1 (hz0.1 e)' % (cnt, cnt))
+            for (pc, m, taken) in path:
+                o.append('    rw [run_succ, %s _ _ _ %s fetch_%d]' % (STEP[m[0]], '_ _' if m[0] in ('bnz', 'bz') else ('_' if m[0] != 'b' else '_'), pc))
+                if m[0] in ('bnz', 'bz'):
+                    o.append('    rw [%s hzr]' % ('if_pos' if zero else 'if_neg'))
+                elif m[0] in ('bne', 'beq'):
+                    o.append('    simp only [hzf, ↓reduceIte, Bool.false_eq_true]')
+                if taken: o.append('    rw [lab_%d]' % m[-1])
+            o.append('    rfl')
+        o.append('')
     # the loop
     o.append('theorem loop (d1 : D) (m : Nat) (hm : 1 ≤ m) (j : Nat) (hj : j < %d) (d : D) (s : S4) (hi : Inv d1 d s m) :' % n)
     o.append('    ∃ k d\', run prog k ⟨d, pcs j, false⟩ = ⟨d\', %d, false⟩ ∧ Inv d1 d\' (permBV %d (key d1) j m s) 0 := by' % (a['exit'], nk))
@@ -316,10 +442,14 @@ def emit(t):
     o.append('  · intro x h0 h1 h2 h3; rw [post_mem, if_neg h0, if_neg h1, if_neg h2, if_neg h3]\n')
     # callee-saved
     cs_lemmas = []
-    for r in t['cs']:
+    cs_pairs = [(r, r) for r in t['cs']]
+    if t['ns'] == 'Arm':
+        # the return address: `pop {…, pc}` must load the caller's lr, `bx lr` needs lr preserved
+        cs_pairs.append((15, 14) if any(m[0] == 'ldr' and m[1] == 15 for m in mi[a['post'][0]:a['post'][1]]) else (14, 14))
+    for (r, r0) in cs_pairs:
         o.append('theorem cs_x%d (d0 dE : D) (hstk : dE.stk = (pre.foldl execD d0).stk)' % r)
         o.append('    (hfr : ∀ r : Reg, (%s).all (fun i => decide (i.writes ≠ some r)) = true → dE.r.get r = (pre.foldl execD d0).r.get r) :' % ' ++ '.join('seg%d' % j for j in range(n)))
-        o.append('    (post.foldl execD dE).r.x%d = d0.r.x%d := by' % (r, r))
+        o.append('    (post.foldl execD dE).r.x%d = d0.r.x%d := by' % (r, r0))
         hyps = []
         for q in sorted(set([sp, r])):
             if q in a['loopw']: continue    # saved on the stack by the prologue and restored by the epilogue
@@ -340,7 +470,7 @@ def emit(t):
     o.append('       let out := permBV %d (fun k => d0.mem (p + BitVec.ofNat 32 (16 + 4 * k))) 0 r ⟨d0.mem (p + %s), d0.mem (p + %s), d0.mem (p + %s), d0.mem (p + %s)⟩' % (nk, lit32(0), lit32(4), lit32(8), lit32(12)))
     o.append('       dF.mem (p + %s) = out.a ∧ dF.mem (p + %s) = out.b ∧ dF.mem (p + %s) = out.c ∧ dF.mem (p + %s) = out.d ∧' % (lit32(0), lit32(4), lit32(8), lit32(12)))
     o.append('       (∀ x, x ≠ p + %s → x ≠ p + %s → x ≠ p + %s → x ≠ p + %s → dF.mem x = d0.mem x)) ∧' % (lit32(0), lit32(4), lit32(8), lit32(12)))
-    o.append('      ' + ' ∧ '.join('dF.r.x%d = d0.r.x%d' % (r, r) for r in t['cs']) + ' := by')
+    o.append('      ' + ' ∧ '.join('dF.r.x%d = d0.r.x%d' % (r, r0) for (r, r0) in cs_pairs) + ' := by')
     o.append('  obtain ⟨d1, hd1⟩ : ∃ d1, d1 = pre.foldl execD d0 := ⟨_, rfl⟩')
     for q in range(4):
         o.append('  have ps%d : d1.r.x%d = d0.mem (d0.r.x%d + %s) := by rw [hd1]; exact pre_s%d d0' % (q, S[q], a0, lit32(4 * q), q))
@@ -381,7 +511,7 @@ def emit(t):
     for r in range(32):
         if r in frame: o.append('      | x%d => exact hE.f%d' % (r, r))
         else: o.append('      | x%d => exact absurd hr (by decide +kernel)' % r)
-    o.append('    exact ⟨' + ', '.join('cs_x%d d0 dE hstk hfr' % r for r in t['cs']) + '⟩')
+    o.append('    exact ⟨' + ', '.join('cs_x%d d0 dE hstk hfr' % r for (r, r0) in cs_pairs) + '⟩')
     o.append('\nend TJ.Gen.Asm.%s' % name)
     return name, '\n'.join(o) + '\n', a
 
